@@ -36,6 +36,10 @@ impl Check for C18 {
     fn min_nontrivial_pct(&self) -> u32 {
         30
     }
+    fn shrink_budget(&self, _tier: Tier) -> usize {
+        // one evaluation is a complete fault enumeration over an image
+        12
+    }
     fn run(&self, _phase: usize, tape: &[u8], want_sample: bool) -> CaseResult {
         let c = gen_full_case(tape);
         let mut fsm = match parse_rendered(&c.a, "c18") {
